@@ -202,6 +202,9 @@ def csIface2 : Iface GW :=
         PyGet.run csIface csTryGetByNameProg as csTryGetByName_nlocals w
       else csIface.call w r m as kw }
 
+/-- a method whose only parameter has the default `None` -/
+def padNone (as : List Val) : List Val := if as = [] then [.none] else as
+
 def csCall (w : GW) (m : String) (as : List Val) : CallRes GW :=
   if m = "get" then (if as.length = 2 then PyGet.run csIface csGetProg as csGet_nlocals w else .stuck)
   else if m = "put" then (if as.length = 3 then PyGet.run csIface csPutProg as csPut_nlocals w else .stuck)
@@ -210,8 +213,10 @@ def csCall (w : GW) (m : String) (as : List Val) : CallRes GW :=
   else if m = "expire" then (if as.length = 2 then PyGet.run csIface csExpireProg as csExpire_nlocals w else .stuck)
   else if m = "tryGet" then (if as.length = 2 then PyGet.run csIface2 csTryGetProg as csTryGet_nlocals w else .stuck)
   else if m = "tryGetByName" then (if as.length = 2 then PyGet.run csIface csTryGetByNameProg as csTryGetByName_nlocals w else .stuck)
-  else if m = "clear" then (if as.length = 1 then PyGet.run csIface csClearProg as csClear_nlocals w else .stuck)
-  else if m = "weakrefAll" then (if as.length = 1 then PyGet.run csIface csWeakrefAllProg as csWeakrefAll_nlocals w else .stuck)
+  else if m = "clear" then (if as.length ≤ 1 then PyGet.run csIface csClearProg (padNone as) csClear_nlocals w else .stuck)
+  else if m = "weakrefAll" then (if as.length ≤ 1 then PyGet.run csIface csWeakrefAllProg (padNone as) csWeakrefAll_nlocals w else .stuck)
+  else if m = "getAll" then (if as.length ≤ 1 then PyGet.run csIface csGetAllProg (padNone as) csGetAll_nlocals w else .stuck)
+  else if m = "allSubCachesByClassNames" then (if as.length = 0 then PyGet.run csIface csAllSubCachesByClassNamesProg as csAllSubCachesByClassNames_nlocals w else .stuck)
   else if m = "allIDs" then (if as.length = 1 then PyGet.run csIface csAllIDsProg as csAllIDs_nlocals w else .stuck)
   else if m = "allSubCaches" then (if as.length = 0 then PyGet.run csIface csAllSubCachesProg as csAllSubCaches_nlocals w else .stuck)
   else .stuck
@@ -279,6 +284,7 @@ def soAttr (w : GW) (v : Val) (p : List String) : R Val :=
     else .stuck
   | .ref kind i =>
     if kind = "conn" then (if p = ["cache"] then .ok VcacheSet else .stuck)
+    else if kind = "sqlmeta" then (if p = ["soClass"] then .ok (.cls i) else .stuck)
     else if kind = "iter" then
       (if p = ["cursor"] then .ok (.ref "cursor" i)
        else if p = ["select", "ops"] then .ok (.ref "ops" i)
@@ -466,6 +472,34 @@ def foreignKeyG (w : GW) (h : Handle) (v : Val) (tc : Cls) (idName : Val) : Call
 /-- `Iteration.next()` of a select over class `c` -/
 def iterNextG (w : GW) (c : Cls) : CallRes GW :=
   PyGet.run (soIface (.ref "iter" c) ext2) iterNextProg [] iterNext_nlocals w
+
+/-- `inst.expire()` -/
+def expireCall (w : GW) (h : Handle) : CallRes GW :=
+  PyGet.run (soIface (.obj h) ext1) expireProg [] expire_nlocals w
+
+/-- `destroy`: what `inst.destroySelf()` does (the cascade is C12's; with no dependent rows it is the translated tail) -/
+def ext3 (destroy : GW → Handle → CallRes GW) : GW → Val → String → List Val → List (String × Val) → CallRes GW :=
+  fun w r m as kw =>
+  match r with
+  | .obj h =>
+    if m = "_init" then initCall w h as kw
+    else if m = "expire" ∧ as = [] ∧ kw = [] then expireCall w h
+    else if m = "destroySelf" ∧ as = [] ∧ kw = [] then destroy w h
+    else .stuck
+  | .cls c => if m = "get" then getCall w c as kw else .stuck
+  | _ => .stuck
+
+/-- `cls.delete(id, connection)` -/
+def deleteG (destroy : GW → Handle → CallRes GW) (w : GW) (c : Cls) (k : Id) (conn : Val) : CallRes GW :=
+  PyGet.run (soIface (.cls c) (ext3 destroy)) deleteProg [.key k, conn] delete_nlocals w
+
+/-- `cls.sqlmeta.expireAll(connection)` -/
+def metaExpireAllG (w : GW) (c : Cls) (conn : Val) : CallRes GW :=
+  PyGet.run (soIface (.ref "sqlmeta" c) (ext3 (fun _ _ => .stuck))) metaExpireAllProg [conn] metaExpireAll_nlocals w
+
+/-- `connection.expireAll()` -/
+def connExpireAllG (w : GW) : CallRes GW :=
+  PyGet.run (soIface Vconn (ext3 (fun _ _ => .stuck))) connExpireAllProg [] connExpireAll_nlocals w
 
 /-- the caller keeps the instance it was handed -/
 def holdS (s : State) (h : Handle) : State := setObj s h { s.obj h with held := true }
